@@ -42,6 +42,11 @@ type Case struct {
 	// printed value by class: the line is judged Go against JS only.
 	FloatData map[string]float64 `json:"floatData,omitempty"`
 	Direct    *FloatClass        `json:"direct,omitempty"`
+	// StrData: string data for hand-written sources
+	StrData map[string]string `json:"strData,omitempty"`
+	// Entry, when set, is the template to render (hand-written sources whose
+	// spec program is only a placeholder)
+	Entry string `json:"entry,omitempty"`
 	// NoData: the entry template is called without any argument (JS) / with a
 	// nil data map (Go)
 	NoData bool `json:"noData,omitempty"`
@@ -60,9 +65,20 @@ type Case struct {
 // FloatClass is what the specification gets to know about a float that is
 // outside its dyadic model.
 type FloatClass struct {
+	Kind    string `json:"kind"` // "float" | "bundle"
 	Finite  bool   `json:"finite"`
 	NegZero bool   `json:"negzero"`
 	Use     string `json:"use"`
+	// kind "bundle": the compiler accepted it; its templates use plain constructs only
+	Accepted bool `json:"accepted"`
+	Plain    bool `json:"plain"`
+}
+
+func (c *Case) entry() string {
+	if c.Entry != "" {
+		return c.Entry
+	}
+	return c.Prog.Entry
 }
 
 // Src returns the Soy source of all files.
@@ -191,6 +207,9 @@ func (r *Runner) Exec(c *Case) {
 		c.Skip = "compile: " + err.Error()
 		return
 	}
+	if c.Direct != nil && c.Direct.Kind == "bundle" {
+		c.Direct.Accepted = true
+	}
 	// translation catalogue (built from the real parse tree, mirrored into the
 	// spec program as tr/forms fields)
 	var cat *catalog
@@ -208,9 +227,13 @@ func (r *Runner) Exec(c *Case) {
 	}
 	godata := core.ToDataMap(c.Prog.Data)
 	var jsdata interface{} = plainMap(c.Prog.Data)
-	if c.FloatData != nil {
+	if c.FloatData != nil || c.StrData != nil {
 		godata = data.Map{}
 		jm := map[string]interface{}{}
+		for k, x := range c.StrData {
+			godata[k] = data.String(x)
+			jm[k] = x
+		}
 		for k, x := range c.FloatData {
 			godata[k] = data.Float(x)
 			jm[k] = x
@@ -220,7 +243,7 @@ func (r *Runner) Exec(c *Case) {
 	if c.NoData {
 		godata = nil
 	}
-	c.Go = renderGo(comp, c.Prog.Entry, godata, ij, cat)
+	c.Go = renderGo(comp, c.entry(), godata, ij, cat)
 	// JS side: translate every file
 	var srcs []jsrun.Source
 	opts := soyjs.Options{}
@@ -256,7 +279,7 @@ func (r *Runner) Exec(c *Case) {
 		pre = append(pre, pluralJS[cat.rule])
 	}
 	resp, rerr := r.Pool.Run(jsrun.Request{Pre: pre, Sources: srcs,
-		Calls: []jsrun.Call{{Fn: c.Prog.Entry, Data: jsdata, IJ: ijd, NoData: c.NoData}}, Timeout: 5 * time.Second})
+		Calls: []jsrun.Call{{Fn: c.entry(), Data: jsdata, IJ: ijd, NoData: c.NoData}}, Timeout: 5 * time.Second})
 	if rerr != nil {
 		c.Skip = "node: " + rerr.Error()
 		return
